@@ -188,8 +188,41 @@ func c05Run(c *fw.Ctx, idx int) {
 	}
 	if err != nil || t2 != text {
 		c.Fail("encoder-differs", "NewEncoder().Encode differs from Marshal")
+		return
+	}
+	// ... and so is an Encoder the caller keeps for the life of the process, whatever
+	// it was asked to encode before - including geometries it had to refuse
+	// part-way through (after it had already produced text for the first members)
+	if c05Kept == nil {
+		c05Kept = wkt.NewEncoder()
+	}
+	if r.Chance(1, 3) {
+		c.Guard("panic", func() {
+			bad := geom.NewGeometryCollection().MustPush(geom.NewPointFlat(geom.XY, []float64{7.8, 8.9}), geom.NewLineStringFlat(geom.Layout(5), []float64{1, 2, 3, 4, 5, 6, 7, 8, 9, 10}))
+			switch r.Intn(3) {
+			case 0:
+				bad = geom.NewGeometryCollection().MustPush(geom.NewPointFlat(geom.XY, []float64{7.8, 8.9}), geom.NewPointFlat(geom.XY, []float64{3, 4}), geom.NewLineString(geom.NoLayout))
+			case 1:
+				bad = geom.NewGeometryCollection().MustPush(geom.NewMultiPointFlat(geom.XYZ, []float64{1, 2, 3, 4, 5, 6}), geom.NewGeometryCollection().MustPush(geom.NewPointFlat(geom.XYZ, []float64{7, 8, 9}), geom.NewPolygon(geom.NoLayout)))
+			}
+			if _, e := c05Kept.Encode(bad); e != nil {
+				c.Count("failed_encode_on_the_kept_encoder")
+			}
+		})
+	}
+	var t3 string
+	if c.Guard("panic", func() { t3, err = c05Kept.Encode(t) }) {
+		return
+	}
+	c.Eval(1)
+	c.Count("kept_encoder_compared")
+	if err != nil || t3 != text {
+		c.Fail("encoder-differs", "an Encoder kept and used before gave err=%v and %s; wkt.Marshal gave %s", err, clipStr(t3, 300), clipStr(text, 300))
 	}
 }
+
+// c05Kept is one default Encoder used by every case of a worker process.
+var c05Kept *wkt.Encoder
 
 func clipStr(s string, n int) string {
 	if len(s) > n {
